@@ -562,6 +562,42 @@ fn main() {{
             ),
         ),
         (
+            "derive(Collect) with an impl body injected through the bound string".into(),
+            body(
+                "#[derive(Collect)]\n#[collect(no_drop, bound = \"where Self: Sized { const NEEDS_TRACE: bool = false; } macro_rules! eat {($($t:tt)*)=>{}} eat!\")]\nstruct Hd<'gc> { slot: RefCell<Option<C<'gc>>> }\n#[derive(Collect)]\n#[collect(no_drop)]\nstruct Root<'gc> { h: Gc<'gc, Hd<'gc>> }",
+                "Root { h: Gc::new(mc, Hd { slot: RefCell::new(None) }) }",
+                "*root.h.slot.borrow_mut() = Some(child);",
+                "root.h.slot.borrow().is_some()",
+            ),
+        ),
+        (
+            "dyn_collect! with an impl body injected through the where clause".into(),
+            body(
+                "trait Tr<'gc>: 'gc + gc_arena::collect::DynCollect<'gc> { fn slot(&self) -> Gc<'gc, Lock<Option<C<'gc>>>>; }\n#[derive(Collect)]\n#[collect(no_drop)]\nstruct Im<'gc>(Gc<'gc, Lock<Option<C<'gc>>>>);\nimpl<'gc> Tr<'gc> for Im<'gc> { fn slot(&self) -> Gc<'gc, Lock<Option<C<'gc>>>> { self.0 } }\ntrait Decoy<'gc> { fn trace<_T: gc_arena::collect::Trace<'gc>>(&self, cc: &mut _T); }\ngc_arena::collect::dyn_collect!(<'x> dyn Tr<'gc> where 'gc: 'x { fn trace<T: gc_arena::collect::Trace<'gc>>(&self, _cc: &mut T) {} } impl<'gc> Decoy<'gc> for u8);\n#[derive(Collect)]\n#[collect(no_drop)]\nstruct Root<'gc> { b: Box<dyn Tr<'gc> + 'gc> }",
+                "Root { b: Box::new(Im(Gc::new(mc, Lock::new(None)))) }",
+                "root.b.slot().set(mc, Some(child));",
+                "true",
+            ),
+        ),
+        (
+            "dyn_collect! with an impl body injected after the type".into(),
+            body(
+                "trait Tr<'gc>: 'gc + gc_arena::collect::DynCollect<'gc> { fn slot(&self) -> Gc<'gc, Lock<Option<C<'gc>>>>; }\n#[derive(Collect)]\n#[collect(no_drop)]\nstruct Im<'gc>(Gc<'gc, Lock<Option<C<'gc>>>>);\nimpl<'gc> Tr<'gc> for Im<'gc> { fn slot(&self) -> Gc<'gc, Lock<Option<C<'gc>>>> { self.0 } }\ntrait Decoy<'gc> { fn trace<_T: gc_arena::collect::Trace<'gc>>(&self, cc: &mut _T); }\ngc_arena::collect::dyn_collect!(dyn Tr<'gc> { fn trace<T: gc_arena::collect::Trace<'gc>>(&self, _cc: &mut T) {} } impl<'gc> Decoy<'gc> for u8);\n#[derive(Collect)]\n#[collect(no_drop)]\nstruct Root<'gc> { b: Box<dyn Tr<'gc> + 'gc> }",
+                "Root { b: Box::new(Im(Gc::new(mc, Lock::new(None)))) }",
+                "root.b.slot().set(mc, Some(child));",
+                "true",
+            ),
+        ),
+        (
+            "dyn_collect! used as documented (control)".into(),
+            body(
+                "trait Tr<'gc>: 'gc + gc_arena::collect::DynCollect<'gc> { fn slot(&self) -> Gc<'gc, Lock<Option<C<'gc>>>>; }\n#[derive(Collect)]\n#[collect(no_drop)]\nstruct Im<'gc>(Gc<'gc, Lock<Option<C<'gc>>>>);\nimpl<'gc> Tr<'gc> for Im<'gc> { fn slot(&self) -> Gc<'gc, Lock<Option<C<'gc>>>> { self.0 } }\ntrait Decoy<'gc> { fn trace<_T: gc_arena::collect::Trace<'gc>>(&self, cc: &mut _T); }\ngc_arena::collect::dyn_collect!(dyn Tr<'gc>);\n#[derive(Collect)]\n#[collect(no_drop)]\nstruct Root<'gc> { b: Box<dyn Tr<'gc> + 'gc> }",
+                "Root { b: Box::new(Im(Gc::new(mc, Lock::new(None)))) }",
+                "root.b.slot().set(mc, Some(child));",
+                "true",
+            ),
+        ),
+        (
             "dyn_collect! on a sized type with a Cell holding a pointer".into(),
             body(
                 "struct H<'a>(Cell<Option<C<'a>>>);\ngc_arena::collect::dyn_collect!(<'a> H<'a>);\n#[derive(Collect)]\n#[collect(no_drop)]\nstruct Root<'gc> { h: Gc<'gc, H<'gc>> }",
